@@ -494,3 +494,61 @@ func (r *Run) AddEvals(n int64) {
 	r.evals += n
 	r.mu.Unlock()
 }
+
+// ---- stall watchdog: Begin/End bracket a case; a case that stays open longer
+// than the limit is reported as a stall violation and the process exits.
+
+type openCase struct {
+	c     Case
+	since time.Time
+	sig   string
+}
+
+var (
+	wdMu    sync.Mutex
+	wdOpen  = map[int64]*openCase{}
+	wdNext  int64
+	wdOnce  sync.Once
+	wdLimit = 30 * time.Second
+)
+
+// Begin registers a running case with the watchdog.
+func (r *Run) Begin(c Case, stallSig string) int64 {
+	wdOnce.Do(func() {
+		go func() {
+			for {
+				time.Sleep(2 * time.Second)
+				wdMu.Lock()
+				var stuck *openCase
+				for _, oc := range wdOpen {
+					if time.Since(oc.since) > wdLimit {
+						stuck = oc
+						break
+					}
+				}
+				wdMu.Unlock()
+				if stuck != nil {
+					r.Violate(stuck.c, stuck.sig, fmt.Sprintf("call did not return within %v (stall watchdog)", wdLimit), "stall", "every Read returns in bounded time")
+					code := r.Finish()
+					if code == 0 {
+						code = 1
+					}
+					os.Exit(code)
+				}
+			}
+		}()
+	})
+	wdMu.Lock()
+	wdNext++
+	id := wdNext
+	wdOpen[id] = &openCase{c: c, since: time.Now(), sig: stallSig}
+	wdMu.Unlock()
+	return id
+}
+
+// End unregisters a case.
+func (r *Run) End(id int64) {
+	wdMu.Lock()
+	delete(wdOpen, id)
+	wdMu.Unlock()
+}
